@@ -56,6 +56,10 @@ def mutants(instrs, rng, k=3):
             ops.append("index")
         if name in evm.PURE:
             ops.append("delete")
+        if i + 1 in idxs:
+            ops.append("transpose")
+        if name in STORES:
+            ops.append("reorder-stores")
         if not ops:
             continue
         op = rng.choice(ops)
@@ -86,6 +90,25 @@ def mutants(instrs, rng, k=3):
             if not 1 <= nk <= 16:
                 continue
             m[i] = ("%s%d" % (base, nk), None)
+        elif op == "transpose":
+            m[i], m[i + 1] = m[i + 1], m[i]
+            if m == list(instrs):
+                continue
+        elif op == "reorder-stores":
+            # exchange this store (with the two instructions that prepare its operands, if it has them) with a later one;
+            # adjacent bare stores get their operand pairs exchanged on the stack instead
+            later = [j for j in idxs if j > i and instrs[j][0] in STORES]
+            if not later:
+                continue
+            j = rng.choice(later)
+            if j == i + 1:
+                m[i:i] = [("SWAP2", None), ("SWAP1", None), ("SWAP3", None), ("SWAP1", None)]
+            elif i >= 2 and j - 2 > i and all(instrs[x][0].startswith(("PUSH", "DUP")) and instrs[x][0] not in asm.VALUE_KINDS for x in (i - 2, i - 1, j - 2, j - 1)):
+                m[i - 2:i + 1], m[j - 2:j + 1] = instrs[j - 2:j + 1], instrs[i - 2:i + 1]
+            else:
+                m[i], m[j] = m[j], m[i]
+                if m == list(instrs):
+                    continue
         elif op == "delete":
             a, p = evm.ARITY[name]
             m[i:i + 1] = [("POP", None)] * a + [("PUSH", rng.choice([0, 1, 7]))]
@@ -259,7 +282,14 @@ def check_forves_render(a, b, stats, label):
     if len(sa) >= 2:
         stats.nontrivial.add(runner.jhash(["render", ta, tb]))
     stats.classes["forves renderings with %s segments" % ("1" if len(sa) <= 1 else "2+")] += 1
-    skel = lambda x: [i for i in x if i[0] in asm.BLOCK_BEGIN or i[0] in asm.BLOCK_END or i[0] in asm.DEFAULT_SPLIT]
+    def skel(x):
+        out = []
+        for i in x:
+            if i[0] in asm.BLOCK_BEGIN or i[0] in asm.BLOCK_END or i[0] in asm.DEFAULT_SPLIT:
+                out.append(i)
+            elif not out or out[-1] != "segment":
+                out.append("segment")
+        return out
     if skel(a) != skel(b):
         return []           # the adapter only renders pairs that agree outside the optimizable segments
     if text is None:
@@ -289,6 +319,8 @@ def check_forves_verdict(a, b, rng, stats, label):
     d = distinguishing_state(a, b, rng, n=40)
     if d is None:
         return []
+    if "underflow" in str(d.get("reason")):
+        return []        # the rendering fixes a stack of 500 words: a deeper stack need is outside what the adapter states
     ta, tb = asm.instrs_to_plain([i for i in a if i[0] != "tag"]), asm.instrs_to_plain([i for i in b if i[0] != "tag"])
     r = pipeline.gasol(forves_verdict, ta, tb, "gas", cpu=60)
     stats.evaluations += 1
@@ -300,6 +332,27 @@ def check_forves_verdict(a, b, rng, stats, label):
                                {"type": "forves-pair", "blocks": [asm.instrs_to_plain(a), asm.instrs_to_plain(b)], "state": d.get("state")})]
     stats.classes["forves answer " + str(r.value)[:20]] += 1
     return []
+
+
+@st.composite
+def two_store_block(draw):
+    """two stores whose keys/addresses are symbolic (they collide on aliasing states) or equal constants"""
+    kind = draw(st.sampled_from(["SSTORE", "MSTORE", "MSTORE8"]))
+    kind2 = kind if kind == "SSTORE" else draw(st.sampled_from(["MSTORE", "MSTORE8"]))
+    form = draw(st.integers(0, 3))
+    pre = draw(gen.body(min_len=0, max_len=4, profile=gen.ARITH_PROFILE, allow_split=False, max_need=4)) if draw(st.booleans()) else []
+    mid = draw(st.sampled_from([[], [("DUP1", None), ("POP", None)], [("PUSH", 7)], [("CALLER", None), ("POP", None)]]))
+    if form == 0:
+        body = [(kind, None)] + mid + [(kind2, None)]
+    elif form == 1:
+        a, b, c, d = [draw(st.integers(1, 4)) for _ in range(4)]
+        body = [("DUP%d" % a, None), ("DUP%d" % b, None), (kind, None)] + mid + [("DUP%d" % c, None), ("DUP%d" % d, None), (kind2, None)]
+    elif form == 2:
+        k = draw(st.sampled_from([0, 1, 0x20, 0x3F, 0x40]))
+        body = [("PUSH", draw(st.integers(1, 9))), ("PUSH", k), (kind, None)] + mid + [("PUSH", draw(st.integers(10, 19))), ("PUSH", k + draw(st.sampled_from([0, 0, 1, 31, 32]))), (kind2, None)]
+    else:
+        body = [("DUP2", None), ("DUP2", None), (kind, None), ("DUP1", None), ("SLOAD" if kind == "SSTORE" else "MLOAD", None), ("SWAP2", None), ("SWAP1", None), (kind2, None)]
+    return pre + body + draw(st.sampled_from([[], [("PUSH", 1)], [("STOP", None)]]))
 
 
 FORVES_OK = dict(gen.DEFAULT_PROFILE, split=6, pseudo=3, env1=0)
@@ -314,7 +367,7 @@ def shard_random(n, sd, n_forves):
     @settings(max_examples=n, database=None, deadline=None, phases=(Phase.generate,),
               suppress_health_check=list(HealthCheck), report_multiple_bugs=False)
     @given(st.one_of(gen.block(max_len=14), gen.block(max_len=16, profile=gen.MEM_PROFILE), gen.block(max_len=12, profile=gen.ARITH_PROFILE),
-                     gen.block(max_len=22, profile=gen.SPLIT_PROFILE), gen.corpus_block()),
+                     gen.block(max_len=22, profile=gen.SPLIT_PROFILE), gen.corpus_block(), two_store_block()),
            st.builds(lambda a, b: a + b + ["-greedy"], st.sampled_from(options.SPLIT), st.sampled_from(options.RULES)), st.integers(0, 2 ** 32))
     def prop(instrs, argv, s):
         rng = random.Random(s)
